@@ -82,7 +82,11 @@ JudgeRun(r, ev) ==
                  \o (IF EofsOK(ev, key, tv.n) THEN <<>> ELSE <<Fail(r, ev, "EndOfStreamOncePerShard", key)>>)
       RECURSIVE AllTaps(_)
       AllTaps(q) == IF q = <<>> THEN <<>> ELSE tapFails(Head(q)) \o AllTaps(Tail(q))
-      cntOK == \/ HasOp(p, {"head", "arg", "scan", "cache", "cachepartial", "readcache"})
+      \* a pipelined sub-slice consumed by several operators is recomputed for each of them, so the
+      \* counters are compared only for programs in which every node has a single use
+      uses(x) == SumSeq([c \in DOMAIN p.nodes |-> Cardinality({k \in DOMAIN p.nodes[c].in : p.nodes[c].in[k] = x - 1})])
+      shared == \E x \in DOMAIN p.nodes : uses(x) > 1
+      cntOK == \/ HasOp(p, {"head", "arg", "scan", "cache", "cachepartial", "readcache"}) \/ shared
                \/ (ev.cnt_map = RowsInto(p, vals, "map") /\ ev.cnt_filter = 2 * RowsInto(p, vals, "filter"))
       outObs == ObsShards(ev, TapKey(p, p.out), out.n)
       \* pin the result to the rows of its first evaluation when they were observed
